@@ -1,12 +1,70 @@
+import os, sys
+sys.path.insert(0, os.path.dirname(os.path.dirname(os.path.abspath(__file__))))
+import checklib
+
+R = "ds/reactive/"
+
+
+def regen(ctx):
+    return checklib.regen_skeletons(
+        ctx,
+        [R + "variable_impl.go:variable.Compute", R + "variable_impl.go:variable.updateValue",
+         R + "variable_impl.go:readableVariable.OnUpdate", R + "utils.go:callback.LockExecution",
+         R + "utils.go:callback.UnlockExecution", R + "utils.go:callback.MarkUnsubscribed",
+         R + "set_impl.go:set.Apply", R + "set_impl.go:set.Compute", R + "set_impl.go:set.Replace",
+         R + "set_impl.go:set.apply", R + "set_impl.go:set.replace", R + "set_impl.go:readableSet.OnUpdate",
+         R + "event_impl.go:event.Trigger", R + "event_impl.go:event.OnTrigger"],
+        extra_methods=["LockExecution", "UnlockExecution", "MarkUnsubscribed", "Invoke", "PushBack", "Remove",
+                       "Values", "Next", "updateValue", "apply", "replace"])
+
+
 SPEC = {
     "lean_props": "Hive.Props.C13",
+    "regen": regen,
     "lean_namespace": "Hive.Reactive",
     "driver": "drv_c13",
     "harness": "c13",
     "race": True,
-    "theorems": [],
-    "trusted_base": [],
-    "modelled": [],
-    "manifest": {"text": "", "note": "", "technique": ""},
-    "assumptions": [],
+    "theorems": ["C13_chain", "C13_last_is_final", "C13_set_fold", "C13_set_fold_step", "C13_callbacks_exclusive",
+                 "C13_callbacks_closed", "C13_none_after_unsubscribe_returned", "C13_exactly_once_in_order",
+                 "C13_every_change_delivered", "C13_update_id_test_never_fires", "C13_var_trace_ok", "C13_set_trace_ok",
+                 "C13_old_replace_witness",
+                 "C13_skeleton_variable_Compute", "C13_skeleton_variable_updateValue", "C13_skeleton_variable_OnUpdate",
+                 "C13_skeleton_callback_LockExecution", "C13_skeleton_callback_UnlockExecution",
+                 "C13_skeleton_callback_MarkUnsubscribed", "C13_skeleton_set_Apply", "C13_skeleton_set_Compute",
+                 "C13_skeleton_set_Replace", "C13_skeleton_set_apply", "C13_skeleton_set_replace",
+                 "C13_skeleton_set_OnUpdate", "C13_skeleton_event_Trigger", "C13_skeleton_event_OnTrigger"],
+    "trusted_base": [
+        "hand-written protocol model Hive/Model/Reactive.lean (+ ReactiveInst.lean) of ds/reactive variable_impl.go / set_impl.go / "
+        "event_impl.go / utils.go, tied by (a) regenerated synchronisation skeletons stated as theorems, (b) differential execution of "
+        "the sequential reading (harness/c13 vs drv_c13), (c) the same trace predicates evaluated on logs recorded from real goroutines",
+        "Go toolchain and scheduler (stress explores schedules, it does not enumerate them), compiled Lean driver",
+    ],
+    "modelled": [
+        "atomic steps = lock-protected sections: {compute, value := new, id := ++uid, snapshot := Values()} under the value mutex; "
+        "{PushBack, LockExecution on the fresh callback} under the value mutex; LockExecution = {lock, test, skip+unlock | lastUpdate := id}; "
+        "MarkUnsubscribed = {lock, set, unlock}; ds.List PushBack/Remove/Values are atomic (threadSafeList mutex)",
+        "callback bodies are opaque (enter/exit events): a callback that writes to or unsubscribes from its own object is NOT modelled (it self-deadlocks in the code)",
+        "the value mutex is an RWMutex in the code; readers (Get/Read/ToSlice) are not threads of the model, Get() is read at quiescence",
+        "derived objects (DerivedVariable, DerivedSet, InheritFrom, WithValue, OnUpdateOnce, OnUpdateWithContext) are C14's, not modelled here",
+        "Set contents are lists of naturals compared as sets; ds.Set's iteration order is not modelled",
+    ],
+    "manifest": {
+        "text": "Lean 4 protocol model (Hive.Conc.Sys) of the reactive Variable / Event / Set: shared value, update-id counter, update-order mutex, "
+                "value mutex, callback list, per callback {unsubscribed, lastUpdate, execution mutex, event log}; any number of writer / "
+                "subscriber / unsubscriber threads with arbitrary scripts. Invariants proved by induction over all reachable configurations "
+                "(three layers: lock exclusion; update ids / initial phase / unsubscription / bracketing; ghost delivery history as in DESIGN "
+                "Appendix F) give, for every schedule: C13_chain, C13_last_is_final, C13_set_fold (+ sequential C13_set_fold_step), "
+                "C13_callbacks_exclusive, C13_none_after_unsubscribe_returned, C13_exactly_once_in_order, C13_every_change_delivered, and "
+                "C13_var_trace_ok / C13_set_trace_ok: the decidable trace predicates drv_c13 evaluates on logs recorded from the real code "
+                "hold for every subscription of the model. Tie on every run: regenerated lock/call skeletons of 14 functions as theorems; "
+                "sequential differential (Set Add/AddAll/Delete/DeleteAll/Apply/Compute/Replace diffs and subscriber folds over a 5-element "
+                "universe, Variable Set/Compute/DefaultTo, Event Trigger, OnUpdate with/without initial trigger, unsubscribe); stress with 4-8 "
+                "goroutines per round, per-subscription logs stamped by an atomic logical clock, judged by drv_c13 and by an independent Go oracle.",
+        "note": "Trusted: Lean kernel; the hand-written model (atomicity = lock-protected sections, opaque non-reentrant callbacks); the Go scheduler only "
+                "samples schedules in the tie. Fixed defect: reactive Set.Replace reported all-new as added and all-old as deleted (036bec1).",
+        "technique": "Lean 4 inductive invariants over an interleaving model + regenerated skeleton obligations + differential and trace-predicate correspondence",
+    },
+    "assumptions": ["callbacks do not re-enter the reactive object they are subscribed to",
+                    "unsubscribe functions are called only after OnUpdate has returned them (the model allows even more: any time after registration)"],
 }
